@@ -134,6 +134,9 @@ func (d *Document) UpdateTOC() error {
 	entries := d.collectHeadings(config.MaxLevel)
 
 	// 清空SDT内容并重建
+	if tocSDT.Content == nil {
+		tocSDT.Content = &SDTContent{}
+	}
 	tocSDT.Content.Elements = []interface{}{}
 
 	// 添加目录标题段落
